@@ -220,7 +220,12 @@ func (r *reader) OpenFileWithPreReader(id uint32, preRead func(id uint32, chunkO
 		if !ok {
 			return fmt.Errorf("id of entry %q not found", e.Name)
 		}
-		return preRead(cid, e.ChunkOffset, e.ChunkSize, e.ChunkDigest, chunkR)
+		dgst := e.Digest
+		if e.ChunkDigest != "" {
+			// NOTE* same rule as ChunkEntryForOffset: "reg" can lack ChunkDigest (e.g. legacy stargz)
+			dgst = e.ChunkDigest
+		}
+		return preRead(cid, e.ChunkOffset, e.ChunkSize, dgst, chunkR)
 	})
 	if err != nil {
 		return nil, err
